@@ -1054,6 +1054,7 @@ def base_minority(r):
         return {}
     L, lag = info["leader"], info["lag"]
     other = [i for i in V if i not in (L, lag)]
+    info["window_from"] = len(r.events)      # kills are inserted from here on, for victim sets that contain `lag`
     for o in other:
         for j in V:
             if j != o:
@@ -1194,6 +1195,8 @@ def directed_items(repo, name, spec, tmpdir, stride=1, offset=0, kinds=("between
     tail = competitor_events(V, info) if name == "vote" else []
     n = 0
     picked = [0]
+    p_from = info.get("window_from", 0)
+    must = info.get("lag") if "window_from" in info else None
 
     def skip(n):
         if (n + offset) % stride:
@@ -1201,8 +1204,10 @@ def directed_items(repo, name, spec, tmpdir, stride=1, offset=0, kinds=("between
         picked[0] += 1
         return picked[0] % shard[1] != shard[0]
     if "between" in kinds:
-        for p in range(len(S) + 1):
+        for p in range(p_from, len(S) + 1):
             for label, vs in victim_sets(V, info):
+                if must is not None and must not in vs:
+                    continue
                 n += 1
                 if skip(n):
                     continue
@@ -1215,7 +1220,7 @@ def directed_items(repo, name, spec, tmpdir, stride=1, offset=0, kinds=("between
                     out.append(("%s@%d/%s" % (name, p, label), S[:p] + ins + S[p:]))
     if "at-send" in kinds:
         for p, e in enumerate(S):
-            if e[0] not in ("tick", "deliver") or not sends[p]:
+            if e[0] not in ("tick", "deliver") or not sends[p] or p < p_from:
                 continue
             node = e[1] if e[0] == "tick" else e[2]
             for nth in range(1, sends[p] + 1):
@@ -1325,7 +1330,10 @@ def plan(ctx):
         # commit statements across restarts (C04's own components never restart a node)
         quick = ctx.tier == "quick"
         kinds = ("between", "at-send", "repeat")
-        for (name, n, dump, qs, ts, K) in (("minority", 3, True, 3, 1, 12), ("minority", 3, False, 6, 1, 12),
+        if quick:          # every kill position of the window of `minority`, in 4 shards
+            for j in range(4):
+                items.append(("directed", "minority", 3, True, 1, ctx.seed, ("between",), (j, 4)))
+        for (name, n, dump, qs, ts, K) in (("minority", 3, True, 0, 1, 12), ("minority", 3, False, 4, 1, 12),
                                            ("snapshot", 3, True, 12, 1, 12), ("replication", 3, True, 16, 1, 12),
                                            ("conflict", 3, False, 12, 1, 12), ("minority", 5, True, 0, 2, 16),
                                            ("replication", 5, False, 0, 2, 16)):
